@@ -46,12 +46,17 @@ type assetMgr struct {
 
 // findAsset finds the asset by matching the uri with all assets paths.
 func (am *assetMgr) findAsset(uri string) (*asset, bool) {
+	// An asset directory may lie inside another one: the longest matching path wins,
+	// whatever order the map is iterated in.
+	var found *asset
 	for assetPath := range am.assets {
 		if uri == assetPath || strings.HasPrefix(uri, assetPath+"/") {
-			return am.assets[assetPath], true
+			if found == nil || len(assetPath) > len(found.AssetPath) {
+				found = am.assets[assetPath]
+			}
 		}
 	}
-	return nil, false
+	return found, found != nil
 }
 
 // addAsset adds or retrieves an asset.
